@@ -842,6 +842,8 @@ def run(tier, seed):
         rng = rng_for(seed, 'txcodec', 'malformed')
         malformed_blocks(co, res, real, rng, 120 if quick else 1500)
         co.flush()
+        # 6. scripts of tens of megabytes
+        huge_probe(res, real, quick)
     finally:
         real.close()
     res.exhaustive = True
@@ -857,10 +859,48 @@ def run(tier, seed):
 
 # ---------------------------------------------------------------------------------------------
 
+HUGE_SCRIPT_LENS = (2 ** 24 + 1, 2 ** 25 - 1, 2 ** 25, 2 ** 25 + 1, 2 ** 26 + 3)
+
+
+def huge_case(real, n, side):
+    """A transaction with ONE script of n bytes (BSV has no script size limit: blocks carry scripts of tens
+    of megabytes): parse / serialise / hash on the whole bytes, and the block holding it between two small
+    transactions streamed forwards and backwards with the production chunk size, one chunk larger than
+    the block, and 7,000,000.  Direct oracle only (the model side would mean shipping 100 MB of hex)."""
+    txmod, _u, _o = _real()
+    big = bytes([0x6a]) + bytes(n - 1)
+    small = txmod.Tx(1, [txmod.TxInput(bytes(32), 0xffffffff, b'\x51', 0xffffffff)], [txmod.TxOutput(50, b'\x51')], 0)
+    if side == 'in':
+        tx = txmod.Tx(1, [txmod.TxInput(b'\x11' * 32, 1, big, 0xfffffffe)], [txmod.TxOutput(7, b'\x52')], 0)
+    else:
+        tx = txmod.Tx(2, [txmod.TxInput(b'\x11' * 32, 1, b'\x53', 0xfffffffe)], [txmod.TxOutput(7, big)], 9)
+    fails = [f'{c}: {d}' for c, d in direct_tx(tx, b'', b'')]
+    txs = [small, tx, small]
+    data, _raws = make_block(bytes(80), txs)
+    bfails, _runs = direct_block(real, bytes(80), txs, [25_000_000, len(data) + 10, 7_000_000])
+    fails += [f'{f[0]}: chunk_size {f[2]}, reverse {f[3]}: ' + f[1].split(': ')[-1] for f in bfails]
+    return fails
+
+
+def huge_probe(res, real, quick):
+    for n in (HUGE_SCRIPT_LENS[2:4] if quick else HUGE_SCRIPT_LENS):
+        for side in (('out',) if quick and n != 2 ** 25 + 1 else ('in', 'out')):
+            fails = huge_case(real, n, side)
+            res.evaluations += 1
+            res.bump('huge_script_transactions')
+            if fails and len(res.violations) < 3:
+                res.violations.append({'suite': 'txcodec', 'case': 'huge', 'clause': fails[0].split(':')[0],
+                                       'detail': f'a transaction whose {"input" if side == "in" else "output"} script has '
+                                                 f'{n} bytes: ' + '; '.join(fails)[:1200],
+                                       'script_len': n, 'side': side})
+
+
 def replay(case):
     kind = case.get('case')
     real = Real()
     try:
+        if kind == 'huge':
+            return huge_case(real, case['script_len'], case['side'])
         if kind == 'block':
             txs = [parse_tx_words(w.split()) for w in case['txs']]
             fails, _ = direct_block(real, bytes.fromhex(case['header']), txs, [case['chunk']],
